@@ -160,7 +160,7 @@ def simulate(workdir, module, cfg, num, depth, seed=0, timeout=1200, env=None, t
     os.makedirs(outdir)
     meta = os.path.join(workdir, "meta_sim_%d" % os.getpid())
     args = ["tlc2.TLC", "-workers", "1", "-metadir", meta, "-noGenerateSpecTE", "-config", cfg,
-            "-simulate", "file=%s/tr,num=%d" % (outdir, num), "-depth", str(depth), "-seed", str(seed),
+            "-deadlock", "-simulate", "file=%s/tr,num=%d" % (outdir, num), "-depth", str(depth), "-seed", str(seed),
             module + ".tla"]
     rc, out, wall, cmd = _java(args, workdir, env=env, timeout=timeout)
     shutil.rmtree(meta, ignore_errors=True)
